@@ -281,37 +281,9 @@ class DynamicUpdateSlicePlugin(PrimitiveLeafPlugin):
                     _stamp_type_and_shape(upd_dim, ())
                     _ensure_value_metadata(ctx, upd_dim)
 
-                    cond_neg = cast(
-                        ir.Value,
-                        ctx.builder.Less(
-                            seq_start,
-                            zero_i64,
-                            _outputs=[ctx.fresh_name("dus_tensorscatter_start_neg")],
-                        ),
-                    )
-                    cond_neg.type = ir.TensorType(ir.DataType.BOOL)
-                    _stamp_type_and_shape(cond_neg, ())
-                    _ensure_value_metadata(ctx, cond_neg)
-
-                    start_plus_ref = _binary_scalar(
-                        ctx,
-                        "Add",
-                        seq_start,
-                        ref_dim,
-                        "dus_tensorscatter_start_plus_ref",
-                    )
-                    start_norm = cast(
-                        ir.Value,
-                        ctx.builder.Where(
-                            cond_neg,
-                            start_plus_ref,
-                            seq_start,
-                            _outputs=[ctx.fresh_name("dus_tensorscatter_start_norm")],
-                        ),
-                    )
-                    start_norm.type = ir.TensorType(ir.DataType.INT64)
-                    _stamp_type_and_shape(start_norm, ())
-                    _ensure_value_metadata(ctx, start_norm)
+                    # lax.dynamic_update_slice has already wrapped a negative start once; the
+                    # primitive itself only clamps.
+                    start_norm = seq_start
 
                     max_start = _binary_scalar(
                         ctx, "Sub", ref_dim, upd_dim, "dus_tensorscatter_max_start"
@@ -472,33 +444,9 @@ class DynamicUpdateSlicePlugin(PrimitiveLeafPlugin):
             _stamp_type_and_shape(ref_dim, ())
             _ensure_value_metadata(ctx, ref_dim)
 
-            cond_neg = cast(
-                ir.Value,
-                ctx.builder.Less(
-                    start_i64,
-                    zero_i64,
-                    _outputs=[ctx.fresh_name("dus_start_neg")],
-                ),
-            )
-            cond_neg.type = ir.TensorType(ir.DataType.BOOL)
-            _stamp_type_and_shape(cond_neg, ())
-            _ensure_value_metadata(ctx, cond_neg)
-
-            start_plus_ref = _binary_scalar(
-                ctx, "Add", start_i64, ref_dim, "dus_start_plus_ref"
-            )
-            start_norm = cast(
-                ir.Value,
-                ctx.builder.Where(
-                    cond_neg,
-                    start_plus_ref,
-                    start_i64,
-                    _outputs=[ctx.fresh_name("dus_start_norm")],
-                ),
-            )
-            start_norm.type = ir.TensorType(ir.DataType.INT64)
-            _stamp_type_and_shape(start_norm, ())
-            _ensure_value_metadata(ctx, start_norm)
+            # lax.dynamic_update_slice has already wrapped a negative start once; the
+            # primitive itself only clamps.
+            start_norm = start_i64
 
             max_start = _binary_scalar(ctx, "Sub", ref_dim, upd_dim, "dus_max_start")
             start_ge0 = _binary_scalar(
